@@ -312,3 +312,49 @@ pub fn escaped_panic(cx: &mut Ctx, liar: bool, set_engine: bool, payload: Box<dy
     }
     cx.chk(PS::of(owner), false, "panic-while-observing", || format!("the library panicked while the oracle was observing it (outside any call the model expects to panic): {msg}"));
 }
+
+/// An iterator under test kept in storage the harness owns, so that it can be *relocated* between
+/// two steps: moved (a bitwise copy, which is all a Rust move is) to another place, after which
+/// the bytes of the old place are overwritten. Every Rust value must survive that; an iterator
+/// that caches a pointer into itself (set up at the first `next`) keeps reading the old place.
+pub struct Roving<I> {
+    slots: [std::mem::MaybeUninit<I>; 2],
+    cur: usize,
+}
+
+impl<I> Roving<I> {
+    pub fn new(it: I) -> Self {
+        Roving { slots: [std::mem::MaybeUninit::new(it), std::mem::MaybeUninit::uninit()], cur: 0 }
+    }
+    #[inline]
+    pub fn get(&mut self) -> &mut I {
+        // SAFETY: slots[cur] always holds the live iterator
+        unsafe { self.slots[self.cur].assume_init_mut() }
+    }
+    fn scrub(slot: &mut std::mem::MaybeUninit<I>) {
+        // SAFETY: the slot's value has been moved out; its bytes are dead storage
+        unsafe { std::ptr::write_bytes(slot.as_mut_ptr() as *mut u8, 0xA5, std::mem::size_of::<I>()) }
+    }
+    /// move the iterator to the other slot and overwrite the place it came from
+    pub fn relocate(&mut self) {
+        // SAFETY: a move: read out of the live slot, which is dead afterwards
+        let it = unsafe { self.slots[self.cur].assume_init_read() };
+        Self::scrub(&mut self.slots[self.cur]);
+        self.cur ^= 1;
+        self.slots[self.cur].write(it);
+    }
+    /// move the iterator out (the place it lived in is overwritten)
+    pub fn into_inner(mut self) -> I {
+        let it = unsafe { self.slots[self.cur].assume_init_read() };
+        Self::scrub(&mut self.slots[self.cur]);
+        std::mem::forget(self);
+        it
+    }
+}
+
+impl<I> Drop for Roving<I> {
+    fn drop(&mut self) {
+        // SAFETY: slots[cur] holds the live iterator
+        unsafe { self.slots[self.cur].assume_init_drop() }
+    }
+}
